@@ -25,6 +25,27 @@ def fold_numbers(node):
     if isinstance(node, ast.BinOp) and isinstance(node.op, ast.Div):
         a, b = fold_numbers(node.left), fold_numbers(node.right)
         return a / b
+    # np.array(<literal>) and np.repeat(<values>, <counts>) / np.tile are literal constructors too (exact, element-wise)
+    if isinstance(node, ast.Call):
+        d = dotted(node.func)
+        nm = d[-1] if d else None
+        if nm in ("array", "asarray") and node.args:
+            return fold_numbers(node.args[0])
+        if nm == "repeat" and len(node.args) >= 2:
+            vals, cnts = fold_numbers(node.args[0]), fold_numbers(node.args[1])
+            if isinstance(cnts, Fraction):
+                cnts = [cnts] * len(vals)
+            if len(vals) != len(cnts):
+                raise ValueError("np.repeat: values and counts differ in length")
+            out = []
+            for v, c in zip(vals, cnts):
+                out += [v] * int(c)
+            return out
+        if nm == "concatenate" and node.args and isinstance(node.args[0], (ast.List, ast.Tuple)):
+            out = []
+            for e in node.args[0].elts:
+                out += fold_numbers(e)
+            return out
     raise ValueError(f"not a numeric literal: {norm(node)[:40]}")
 
 
@@ -41,9 +62,9 @@ def tables_by_branch(func, param):
                     for s in st.body:
                         if isinstance(s, ast.Assign) and len(s.targets) == 1 and isinstance(s.targets[0], ast.Name) and isinstance(s.value, ast.Call):
                             d = dotted(s.value.func)
-                            if d and d[-1] == "array" and s.value.args:
+                            if d and d[-1] in ("array", "repeat", "concatenate", "asarray") and s.value.args:
                                 try:
-                                    tabs[s.targets[0].id] = (fold_numbers(s.value.args[0]), s)
+                                    tabs[s.targets[0].id] = (fold_numbers(s.value), s)
                                 except ValueError:
                                     tabs[s.targets[0].id] = (None, s)
                     out[c.value] = (tabs, st)
